@@ -12,9 +12,13 @@ class TimePattern(i_lib.TimePattern):
     def __init__(self, hours, minutes):
         self._repr = 'TimePattern("{}", "{}")'.format(hours, minutes)
         self._hour_set, self._minute_set = set(), set()
+        # Each alternative is a (hour set, minute set) pair; the pattern
+        # matches if any one of them does.
+        self._alternatives = []
         if hours and minutes:
             self._init_hour_set(hours)
             self._init_minute_set(minutes)
+            self._alternatives.append((self._hour_set, self._minute_set))
 
     def __repr__(self):
         return self._repr
@@ -64,11 +68,11 @@ class TimePattern(i_lib.TimePattern):
         return 0 <= int_minutes < 60
 
     def union(self, other):
-        self._hour_set.update(other._hour_set)
-        self._minute_set.update(other._minute_set)
+        self._alternatives.extend(other._alternatives)
 
     def match(self, hours, minutes):
-        return hours in self._hour_set and minutes in self._minute_set
+        return any(hours in hour_set and minutes in minute_set
+                   for hour_set, minute_set in self._alternatives)
 
     def _init_hour_set(self, pattern):
         if pattern == '*':
